@@ -1013,7 +1013,7 @@ func (l *lexer) scanRawToken() (tok int) {
 			if l.lit(); len(l.word) != 0 {
 				return WORD
 			}
-			if l.tokLine == l.line && len(l.aliases) == 0 {
+			if l.tokLine == l.line {
 				// a comment behind a token of the same line ends
 				// before the <newline>, which is a token of its own
 				if !l.trailingComment() {
